@@ -126,10 +126,26 @@ func (c *Cache) Commit() (err error) {
 	return nil
 }
 
-// Copy duplicate a file or directory
+// removed reports whether the node (or one of its parent directories) was removed
+// through the cache: the remote copy of such a node is not visible any more
+func (c *Cache) removed(src string) bool {
+	c.changes.removeMU.RLock()
+	defer c.changes.removeMU.RUnlock()
+	c.changes.removeAllMU.RLock()
+	defer c.changes.removeAllMU.RUnlock()
+	for p := src; p != "." && p != "/" && p != ""; p = path.Dir(p) {
+		if c.changes.remove[p] || c.changes.removeAll[p] {
+			return true
+		}
+	}
+	return false
+}
+
+// srcFS return the layer (buffer or remote) that holds the node
 func (c *Cache) srcFS(p string) (srcFS filesystem.Filespace, src string) {
 	src = varutil.CleanPath(p)
-	if c.bufferFS.IsExist(src) {
+	if c.bufferFS.IsExist(src) || c.removed(src) {
+		// a removed node can only live in the buffer (when it was created again)
 		srcFS = c.bufferFS
 	} else {
 		srcFS = c.remoteFS
@@ -183,20 +199,28 @@ func (c *Cache) ReadDir(src string) (result []os.FileInfo, err error) {
 		remoteErr, bufferErr   error
 	)
 	src = varutil.CleanPath(src)
-	remoteDirs, remoteErr = c.remoteFS.ReadDir(src)
+	if c.removed(src) {
+		remoteErr = goaterr.Errorf("%s was removed", src)
+	} else {
+		remoteDirs, remoteErr = c.remoteFS.ReadDir(src)
+	}
 	bufferDirs, bufferErr = c.bufferFS.ReadDir(src)
 	if remoteErr != nil && bufferErr != nil {
 		return nil, goaterr.ToError(goaterr.AppendError(nil, remoteErr, bufferErr))
 	}
-	result = remoteDirs
+	// buffer nodes first, then the remote nodes that are neither shadowed nor removed
+	result = append(result, bufferDirs...)
 ReadDirLoop:
-	for _, bnode := range bufferDirs {
-		for _, cnode := range remoteDirs {
+	for _, cnode := range remoteDirs {
+		for _, bnode := range bufferDirs {
 			if bnode.Name() == cnode.Name() {
 				continue ReadDirLoop
 			}
 		}
-		result = append(result, bnode)
+		if c.removed(path.Join(src, cnode.Name())) {
+			continue
+		}
+		result = append(result, cnode)
 	}
 	return result, nil
 }
@@ -204,19 +228,19 @@ ReadDirLoop:
 // IsExist return true if node exist
 func (c *Cache) IsExist(src string) bool {
 	src = varutil.CleanPath(src)
-	return c.bufferFS.IsExist(src) || c.remoteFS.IsExist(src)
+	return c.bufferFS.IsExist(src) || (!c.removed(src) && c.remoteFS.IsExist(src))
 }
 
 // IsFile return true if node exist and is a file
 func (c *Cache) IsFile(src string) bool {
 	src = varutil.CleanPath(src)
-	return c.bufferFS.IsFile(src) || c.remoteFS.IsFile(src)
+	return c.bufferFS.IsFile(src) || (!c.removed(src) && c.remoteFS.IsFile(src))
 }
 
 // IsDir return true if node exist and is a directory
 func (c *Cache) IsDir(src string) bool {
 	src = varutil.CleanPath(src)
-	return c.bufferFS.IsDir(src) || c.remoteFS.IsDir(src)
+	return c.bufferFS.IsDir(src) || (!c.removed(src) && c.remoteFS.IsDir(src))
 }
 
 // MkdirAll create directory recursively
